@@ -58,6 +58,7 @@ class CEmitter:
         self._seen_types = set()
         self.lib_used = set()
         self.ld_standin = False
+        self.helpers = {}        # name -> C text of generated library-contract helpers
         self.tables_used = {}    # tid -> set of helper kinds
         self.strings = []        # interned string_view values (C representation: index)
 
@@ -241,6 +242,18 @@ class CEmitter:
         suf = {'float': 'f', 'double': '', 'long double': 'l'}.get(t[1] if t[0] == 'f' else 'double', '')
         if name == 'sqrt':
             return 'sqrt%s(%s)' % (suf, self.ex(args[0]))
+        if name == 'acos' and t[0] == 'f':
+            tag = {'float': 'f', 'double': 'd', 'long double': 'ld'}[t[1]]
+            fn = 'phqv_acos_%s' % tag
+            uf = '__CPROVER_uninterpreted_acos_%s' % tag
+            ct = self.ctype(t)
+            from fractions import Fraction as _F
+            piup = hexfloat(round_to(_F('3.14159265358979323846264338327950288419716939937510'), t[1]), t[1])
+            self.lib_used.add(('decl', uf, ct, (ct,)))
+            self.helpers[fn] = ('/* libm acos: domain checked here; range [0, pi rounded to %s] and NaN-freedom on [-1,1] are the assumed libm contract */\n'
+                                'static %s %s(%s x) {\n  __CPROVER_assert(x >= -1 && x <= 1, "acos argument in [-1,1] and not NaN");\n'
+                                '  %s r = %s(x);\n  __CPROVER_assume(r >= 0 && r <= %s);\n  return r;\n}\n') % (t[1], ct, fn, ct, ct, uf, piup)
+            return '%s(%s)' % (fn, self.ex(args[0]))
         if name == 'abs' and t[0] == 'f':
             return 'fabs%s(%s)' % (suf, self.ex(args[0]))
         if name in ('table_find', 'table_end', 'table_at', 'iter_second', 'iter_first', 'table_dispatch'):
@@ -476,5 +489,6 @@ class CEmitter:
             decls.append('%s %s(%s);' % (rt, fn, ', '.join(ats)))
         hdr = ['#include <math.h>', '#include <stddef.h>']
         tp, tb = self.table_helpers() if self.tables_used else ('', '')
+        tb = ''.join(self.helpers[k] for k in sorted(self.helpers)) + tb
         return '\n'.join(hdr) + '\n' + '\n'.join(self.need_types) + '\n' + '\n'.join(decls) + '\n' + \
             '\n'.join(protos) + '\n' + tp + extra + '\n' + tb + '\n' + '\n\n'.join(bodies) + '\n'
